@@ -102,6 +102,7 @@ func VerifyFunc(ld *Loader, pkg *Pkg, key string) (res *FuncResult) {
 	fnName := pkg.Types.Name() + "." + key
 	vc := NewVC(ld, pkg, ct.Mode, fnName)
 	vc.strLits = map[string]Term{}
+	vc.revealAll = ct.Reveal
 	res.VC = vc
 	if ct.Trusted {
 		return res
@@ -240,6 +241,18 @@ func (x *Exec) run() {
 	exitPC := final.pc
 	x.final = final.clone()
 	post := x.postEnv(final)
+	// known-finding regions (over the entry state): outside every region the
+	// postconditions must hold (residual obligations); inside, the unrestricted
+	// obligation is expected to fail and is matched against known_findings.jsonl
+	outside := tTrue
+	if len(x.ct.Findings) > 0 {
+		ee := x.entryEnv(final)
+		var rs []Term
+		for _, f := range x.ct.Findings {
+			rs = append(rs, tNot(ee.evalBool(f.Expr)))
+		}
+		outside = tAnd(rs...)
+	}
 	for i, e := range x.ct.Ensures {
 		parts := splitConj(e.Expr)
 		for j, p := range parts {
@@ -251,16 +264,52 @@ func (x *Exec) run() {
 			if len(parts) > 1 {
 				name = fmt.Sprintf("post[%d.%d]", i, j)
 			}
-			x.obligeNamed(final, name, "post", g, x.fd.Pos(), e.Text)
+			if len(x.ct.Findings) > 0 {
+				// unrestricted obligation, checked without being assumed afterwards
+				probe := final.clone()
+				x.obligeNamed(probe, name, "post", g, x.fd.Pos(), e.Text)
+				x.obligeNamed(final, name+"!residual", "post", tImplies(outside, g), x.fd.Pos(), "outside the known-finding regions: "+e.Text)
+				continue
+			}
+			// each postcondition is proved from the exit state alone (not from
+			// the other postconditions): smaller, more stable queries
+			x.obligeNamed(final.clone(), name, "post", g, x.fd.Pos(), e.Text)
 		}
 	}
 	x.frameObligations(final)
 	vc.obls = append(vc.obls, &Obligation{Name: vc.fn + "#cover.exit", Kind: "cover", Func: vc.fn, PC: exitPC, Goal: tFalse, Cover: true, Text: "exit reachable (contract not contradictory)"})
 }
 
+// splitConj splits a clause into independently provable parts: top-level
+// conjunctions, and conjunctions under universal quantifiers / implications
+// (forall x :: P ==> A && B  becomes  forall x :: P ==> A,  forall x :: P ==> B).
 func splitConj(e SExpr) []SExpr {
-	if b, ok := e.(*SBin); ok && b.Op == "&&" {
-		return append(splitConj(b.X), splitConj(b.Y)...)
+	switch b := e.(type) {
+	case *SBin:
+		if b.Op == "&&" {
+			return append(splitConj(b.X), splitConj(b.Y)...)
+		}
+		if b.Op == "==>" {
+			parts := splitConj(b.Y)
+			if len(parts) > 1 {
+				var out []SExpr
+				for _, p := range parts {
+					out = append(out, &SBin{Op: "==>", X: b.X, Y: p})
+				}
+				return out
+			}
+		}
+	case *SQuant:
+		if b.Forall {
+			parts := splitConj(b.Body)
+			if len(parts) > 1 {
+				var out []SExpr
+				for _, p := range parts {
+					out = append(out, &SQuant{Forall: true, Vars: b.Vars, Body: p})
+				}
+				return out
+			}
+		}
 	}
 	return []SExpr{e}
 }
@@ -281,6 +330,9 @@ func (x *Exec) frameObligations(final *State) {
 	for _, k := range eff.kindsW() {
 		names, sorts := vc.heapVars(k)
 		refs, inMs := ms[k.Name]
+		if hasAll(refs) {
+			continue
+		}
 		for i, hv := range names {
 			h0 := vc.heap(x.entry, hv, sorts[i])
 			h1 := vc.heap(final, hv, sorts[i])
